@@ -85,8 +85,8 @@ static std::vector<double> const& nodes1d(TasmanianSparseGrid const &g){
                 }
                 break; }
             case 1: t.makeSequenceGrid(1, 0, 40, type_level, key.rule); break;
-            case 2: t.makeLocalPolynomialGrid(1, 0, 6, key.order, key.rule); break;
-            case 3: t.makeWaveletGrid(1, 0, 4, key.order); break;
+            case 2: t.makeLocalPolynomialGrid(1, 0, (key.order == 0) ? 5 : 8, key.order, key.rule); break;
+            case 3: t.makeWaveletGrid(1, 0, 6, key.order); break;
             case 4: t.makeFourierGrid(1, 0, 4, type_level); break;
             default: break;
         }
@@ -760,6 +760,25 @@ static std::string obs_twin(TasmanianSparseGrid const &g, unsigned seed){
     return s + "}";
 }
 
+// ---------------------------------------------------------------- numeric digest (C13, C16): compared between builds / front ends
+static std::string obs_num(TasmanianSparseGrid const &g, unsigned seed){
+    int np = g.getNumPoints(), outs = g.getNumOutputs(), nl = g.getNumLoaded();
+    if (np == 0) return "\"num\":[]";
+    std::string s = "\"num\":[";
+    bool first = true;
+    auto put = [&](double v){ char b[48]; snprintf(b, 48, "\"%.17g\"", v); if (!first) s += ","; first = false; s += b; };
+    try{
+        auto qw = g.getQuadratureWeights(); for(size_t i=0; i<qw.size() && i<60; i++) put(qw[i]);
+        if (outs > 0 && nl > 0){
+            const double *c = g.getHierarchicalCoefficients(); size_t nc = (size_t) nl * (size_t) outs * (g.isFourier() ? 2 : 1);
+            for(size_t i=0; i<nc && i<80; i++) put(c[i]);
+            auto x = probe_points(g, 9, seed); std::vector<double> y; g.evaluateBatch(x, y); for(auto v : y) put(v);
+            std::vector<double> q; g.integrate(q); for(auto v : q) put(v);
+        }
+    }catch(std::exception &){ }
+    return s + "]";
+}
+
 static std::string slurp(std::string const &f){ std::ifstream i(f, std::ios::binary); std::stringstream ss; ss << i.rdbuf(); return ss.str(); }
 
 static std::string obs_roundtrip(TasmanianSparseGrid const &g, unsigned seed){
@@ -831,6 +850,7 @@ static std::vector<long long> ratios(TasmanianSparseGrid const &g, int output, s
 // as "timeout" and NOT executed in the parent (C08: refinement must terminate).  The library is deterministic,
 // so an action that finished in the child finishes in the parent as well.
 static bool finishes_in_time(std::function<void()> action, int seconds){
+    if (getenv("VERIF_NO_FORK") != nullptr) return true;   // OpenMP runtimes do not survive fork(): the outer time limit is the watchdog there
     fflush(out);
     int fd[2]; if (pipe(fd) != 0) return true;
     pid_t pid = fork();
@@ -862,6 +882,7 @@ static std::vector<double> tokens_for(TasmanianSparseGrid const &g, const int *i
     return v;
 }
 
+#ifndef GRID_REPLAY_NO_MAIN
 int main(int argc, char **argv){
     if (argc < 3){ fprintf(stderr, "usage: grid_replay script.txt trace.ndjson [obs_mask] [tmpdir]\n"); return 2; }
     std::ifstream in(argv[1]);
@@ -1173,6 +1194,7 @@ int main(int argc, char **argv){
             if (obs_mask & OBS_EXACT) O(obs_exact(g, (unsigned) (scen * 139 + step)));
             if (obs_mask & OBS_GRAD) O(obs_grad(g, (unsigned) (scen * 149 + step)));
             if (obs_mask & 64) O(obs_twin(g, (unsigned) (scen * 151 + step)));
+            if (obs_mask & 128) O(obs_num(g, (unsigned) (scen * 157 + step)));
         }catch(std::exception &e){ O(std::string("\"observer_exception\":") + jstr(e.what())); }
         obs += "}";
         fprintf(out, "{\"e\":%s,\"o\":%d,\"a\":%s,\"r\":%s,\"st\":%s,\"st2\":%s,\"obs\":%s%s}\n", jstr(cmd).c_str(), o, args.c_str(), jstr(res).c_str(),
@@ -1184,3 +1206,4 @@ int main(int argc, char **argv){
     fclose(out);
     return 0;
 }
+#endif
